@@ -308,7 +308,7 @@ def main():
         except Exception:
             extract = {"errors": ["extractor crashed: " + (err or out)[-400:]]}
         # a translation that failed is a broken obligation only for the properties that use it
-        RELEVANT = {"structure": {"C13", "C14"}, "abi": {"C15", "C07", "C04"},
+        RELEVANT = {"consts": {"C06", "C11", "C05"}, "structure": {"C13", "C14"}, "abi": {"C15", "C07", "C04"},
                     "fns-nanbox": {"C06", "C11"}, "fns-logs": {"C05"}, "fns-state": {"C03", "C02"},
                     "markers": {"C01", "C08", "C11"}}
         rel_errors = [e for e in extract.get("errors", [])
